@@ -211,7 +211,15 @@ fn main() {
     match args.get(1).map(|s| s.as_str()) {
         Some("--child") => rink_sandbox::become_child::<TestService, _>(&GLOBAL),
         Some("drive") => {
-            let rc = drive();
+            let mut rc = drive();
+            // Children are started from this very file. If it was replaced or removed while
+            // the scenario ran (a concurrent rebuild), respawns failed for a reason that has
+            // nothing to do with the sandbox: tell the check to discard this run.
+            let exe_ok = std::env::current_exe().map(|p| p.is_file()).unwrap_or(false);
+            if rc == 0 && !exe_ok {
+                eprintln!("rv-sbx: the executable was replaced during the run");
+                rc = 5;
+            }
             // do not wait for anything else (zombie children are reaped by init)
             std::process::exit(rc);
         }
